@@ -499,3 +499,17 @@ def copyFirst : List Stmt → Bool
   | _ :: sts => copyFirst sts
 
 end Inline
+
+/-! ## When the renaming cannot raise: no visible name or counter in the `<node>__` family -/
+namespace Inline
+
+/-- `x` starts with `p` -/
+def prefixed (p x : String) : Bool := p.toList.isPrefixOf x.toList
+
+/-- decidable condition on a name space: nothing visible and no counter key starts with
+    `<node>__` (what the build's own naming provides for a fresh `Inline_k`) -/
+def Space.prefixFree (s : Space) (pfx : String) : Bool :=
+  s.used.all (fun x => !prefixed (pfx ++ "__") x) &&
+  s.counters.all (fun c => !prefixed (pfx ++ "__") c.1)
+
+end Inline
